@@ -15,6 +15,8 @@ CONSTANTS
     MaxSpans = 3
     IncomingKinds <- MC_IncBoth
     WithLazy = FALSE
+    WithCancel = FALSE
+    CancelOwnIds = FALSE
     CtxForms <- MC_Forms
     Emit = TRUE
 VIEW sview
